@@ -561,6 +561,43 @@ let cmd_mrender args =
     List.iter (fun e -> emit ("spans " ^ Stdlib.String.concat "," (List.map (fun (a, b) -> Printf.sprintf "%d:%d" (int_of_nat a) (int_of_nat b)) (hook_spans e)))) es
   | _ -> failwith "mrender: bad arguments"
 
+(* mfrontsp <features> <user text hex>: compiled preamble ++ text through the spanned front end (lexer, spanned parser,
+   spanned Program::new): accept, or every diagnostic with its names and spans as the hook error_lines prints them *)
+let span_list l = Stdlib.String.concat "," (List.map (fun (a, b) -> Printf.sprintf "%d:%d" (int_of_nat a) (int_of_nat b)) l)
+let cmd_mfrontsp args =
+  match args with
+  | [feat; h] ->
+    let tiers = match gen_tiers with Some t -> t | None -> [] in
+    let text = ostr gen_preamble ^ hex_decode h in
+    (match front_sp (features_of feat) gen_fixed test_lower test_upper test_uclass tiers (bytes_of text) with
+     | None -> emit "parsefail"
+     | Some (SOk _) -> emit "accept"
+     | Some (SErr es) ->
+       emit ("reject " ^ Stdlib.String.concat " ; "
+               (List.map (fun e -> ostr (ekind_name e.se_kind) ^ "|" ^ Stdlib.String.concat "," (List.map ostr e.se_names) ^ "|" ^ span_list e.se_spans) es)))
+  | _ -> failwith "mfrontsp: bad arguments"
+
+(* mpdiag <user text hex>: compiled preamble ++ text through the parser with the grammar's diagnostic productions:
+   "ok" (no diagnostic), "diags Kind||s:e ; ..." in push order, or "none" (lexical error / LR recovery only) *)
+let dkind_name = function
+  | KMissingWireWidth -> "MissingWireWidth" | KWireAssignedInDeclaration -> "WireAssignedInDeclaration"
+  | KAddedConstWidth -> "AddedConstWidth" | KMissingAssignmentMux -> "MissingAssignmentMux"
+  | KMissingRegisterWidth -> "MissingRegisterWidth" | KRegisterDeclaredWithWire -> "RegisterDeclaredWithWire"
+  | KInvalidWireWidth -> "InvalidWireWidth" | KInvalidConstant -> "InvalidConstant"
+  | KExpectedStatementFoundExpr -> "ExpectedStatementFoundExpr"
+let cmd_mpdiag args =
+  match args with
+  | [h] ->
+    let tiers = match gen_tiers with Some t -> t | None -> [] in
+    let text = ostr gen_preamble ^ hex_decode h in
+    (match parse_text_diag test_uclass tiers (bytes_of text) with
+     | None -> emit "none"
+     | Some r ->
+       (match all_diags r with
+        | [] -> emit "ok"
+        | ds -> emit ("diags " ^ Stdlib.String.concat " ; " (List.map (fun (k, sp) -> dkind_name k ^ "||" ^ span_list [sp]) ds))))
+  | _ -> failwith "mpdiag: bad arguments"
+
 (* lex <texthex> *)
 let token_str (t : token) : Stdlib.String.t =
   match t with
@@ -671,6 +708,8 @@ let dispatch cmd args =
   | "margv" -> cmd_margv args
   | "mtool" -> cmd_mtool args
   | "mrender" -> cmd_mrender args
+  | "mfrontsp" -> cmd_mfrontsp args
+  | "mpdiag" -> cmd_mpdiag args
   | "region" -> cmd_mregion args
   | "mvalid" -> cmd_mvalid args
   | _ -> emit ("unknown command " ^ cmd)
